@@ -91,7 +91,18 @@ def main():
                     meta = json.load(open(mp))
                 except Exception:  # noqa: BLE001
                     meta = {'raw': open(mp).read()[:2000]}
+            prev = {}
+            if os.path.exists(os.path.join(dst, 'meta.json')):
+                try:
+                    prev = json.load(open(os.path.join(dst, 'meta.json'))).get('confirmed', {})
+                except Exception:  # noqa: BLE001
+                    prev = {}
             meta['confirmed'] = {k: v for k, v in r.items() if k not in ('name',)}
+            for k in ('suite_root', 'suite_godev'):
+                if meta['confirmed'].get(k) is None and k in prev:
+                    meta['confirmed'][k] = prev[k]
+            if 'check' in prev:
+                meta['confirmed']['earlier_checks'] = prev.get('earlier_checks', []) + [{kk: vv for kk, vv in prev['check'].items() if kk != 'tail'}]
             json.dump(meta, open(os.path.join(dst, 'meta.json'), 'w'), indent=1)
             c = r.get('check', {})
             print('%-10s applies=%s builds=%s suites=%s/%s rc=%s' % (n, r.get('applies'), r.get('builds'), r.get('suite_root'), r.get('suite_godev'), c.get('rc')), flush=True)
